@@ -536,6 +536,9 @@ def run(pm, ctx):
                      'a reference to an alias is emitted as the alias validator (which carries the '
                      'alias\'s redactor), never inlined (shared with C08-R4)')
 
+    ctx.import_rules(pm, 'C02', {'C02-R12'}, 'C13-R7',
+                     'the unwrap helpers of the IR peel exactly the wrappers their names say '
+                     '(shared with C02-R12)')
     from ..effects import run_decisions
     from ..ownership import OWN
     run_decisions(pm, ctx, 'C13-RD', OWN['C13'])
